@@ -1,5 +1,6 @@
 import Orx.KSRun
 import Orx.IW.Completed
+import Orx.GenThms
 /-! # C06 skip_to_end stops the iteration for everyone, permanently -/
 namespace Orx.Props.C06
 open Orx Orx.KS
@@ -47,5 +48,17 @@ theorem iter_skip_histories_safe (s : IW.Script) (ps : Nat → List IW.Req)
   ⟨IW.inv_reach s ps hok σ hW, IW.oinv_run σ (IW.inv_init s ps hok) (IW.oinv_init s ps) hW⟩
 
 example : IW.ReqOk .skip := Or.inl rfl
+
+
+/-! ## The source itself (translated on every run) -/
+open Orx.RS Orx.Gen Orx.GenThms Orx.KS in
+/-- **`skip_to_end` as it is in the source**: one store (slice, range) or swap (vec, array) of exactly the length —
+the `Atom.skip` of the model — and the consuming kinds destroy exactly the span `[min(c, len), len)` once -/
+theorem source_skip_is_atom_skip (len a b c : Nat) (evs dr) :
+    Slice.skip_to_end (slice len) (st c evs dr) = .ok () (st (Atom.skip.next len c) (evs ++ [.st (.ctr 0) .seqcst len]) dr) ∧
+    Range.skip_to_end (range a b) (st c evs dr) = .ok () (st (Atom.skip.next (b - a) c) (evs ++ [.st (.ctr 0) .seqcst (b - a)]) dr) ∧
+    Vec.skip_to_end (vec len) (st c evs dr) = .ok () (st (Atom.skip.next len c) (evs ++ [.swp (.ctr 0) .acqrel c len]) (dr ++ [(min c len, len)])) ∧
+    Arr.skip_to_end len (arr len) (st c evs dr) = .ok () (st (Atom.skip.next len c) (evs ++ [.swp (.ctr 0) .acqrel c len]) (dr ++ [(min c len, len)])) :=
+  ⟨slice_early_exit len c evs dr, range_early_exit a b c evs dr, vec_early_exit len c evs dr, arr_early_exit len c evs dr⟩
 
 end Orx.Props.C06
